@@ -196,6 +196,39 @@ def spelling_check(x, toks):
         return          # refusals are judged by write_checks
     x.check('every token keeps its exact spelling, in order',
             code_tokens(lx2.tokens) == code_tokens(toks))
+    # line-scoped constructs keep their extent: the formatted text parses to
+    # the same tree (statement kinds, nesting, what a short if / ? owns)
+    from props.astskel import Skel
+    try:
+        p2 = parser.Parser(version=8)
+        p2.process_tokens(lx2.tokens)
+        def skel(ts, root):
+            # (token leaves are renumbered among the code tokens, so that
+            # the two layouts compare)
+            ordinal = {}
+            for i, t in enumerate(ts):
+                if not isinstance(t, (lexer.TokSpace, lexer.TokNewline,
+                                      lexer.TokComment)):
+                    ordinal[i] = len(ordinal)
+
+            def renum(v):
+                if isinstance(v, bool) or v is None:
+                    return v
+                if isinstance(v, int):
+                    return ordinal.get(v, ('trivia', v))
+                if isinstance(v, (list, tuple)):
+                    return [renum(e) for e in v]
+                return v
+            return renum(Skel(ts).chunk(root))
+        same = skel(lx2.tokens, p2.root) == skel(toks, p.root)
+        whole = all(isinstance(t, (lexer.TokSpace, lexer.TokNewline,
+                                   lexer.TokComment))
+                    for t in lx2.tokens[p2.root.end_pos:])
+    except Exception as e:
+        x.check('the formatted text parses', False, info=repr(e)[:120])
+        return
+    x.check('the formatted text parses to the same tree, completely',
+            same and whole)
 
 
 # (code, fully parsed?, expected formatted text as a function of the width)
@@ -315,6 +348,15 @@ HARNESSES = [
             # end, blank or comment): every line of the seed programs as
             # the last line
             [dict(Q, src=s) for s in NO_TAIL] +
+            # operators that must not be pushed together, blocks inside
+            # line-scoped constructs
+            [dict(Q, src=s) for s in (
+                'a = - -b\nf()\n', 'x=3 - - -z y=- - 1\n',
+                'x=not not a y=# #t z=- #t\n', 'x=a - -b c=d .. ...\n',
+                'if (x) for i=1,3 do f(i) end\ny=1\n',
+                'if (a) do b() end c()\nd()\n',
+                '?f(function() return 1 end)\nz=2\n',
+                'if (a) while b do c() end else repeat d() until e\nf()\n')] +
             # white space inside tokens
             [dict(Q, src=s) for s in (
                 's=[[ab  \n  cd \n]] t="a  b " u=\'  \'\n',
